@@ -107,7 +107,7 @@ func verbsOfKind(k string) string {
 // leaf outside the domain).
 func validVerbs(d *D) string {
 	switch d.K {
-	case "Safe", "Unsafe", "slice", "arr", "S2", "SEmbed", "SVStruct", "SVSlice", "ptr", "RValue", "RegStruct":
+	case "Safe", "Unsafe", "slice", "arr", "S2", "SEmbed", "SVStruct", "SVSlice", "ptr", "RValue", "RegStruct", "strgs":
 		vs := "abcdefgijklmnoqrstuvxyzABCDEFGHIJKLMNOQRSUVWXYZ!"
 		if d.K == "RegStruct" {
 			vs = intersect(vs, "bcdoOqxXUv") // the int field
@@ -140,7 +140,7 @@ func intersect(a, b string) string {
 // String/Error are printed structurally instead: outside the bracket domain.
 func sharpVOK(d *D) bool {
 	switch d.K {
-	case "Stringer", "PStringer", "Err", "StdErr", "WrapErr", "PErr", "ErrStringer", "RegStr", "RegDur", "SVStringer", "ptr", "RValue":
+	case "Stringer", "PStringer", "Err", "StdErr", "WrapErr", "PErr", "ErrStringer", "RegStr", "RegDur", "SVStringer", "ptr", "RValue", "strgs":
 		return false
 	}
 	for _, s := range d.Sub {
@@ -200,8 +200,18 @@ func c05value(r *Rng, depth int, top bool) *D {
 			d.Sub = append(d.Sub, sub())
 		}
 		return d
-	case c < 18:
+	case c < 16:
 		return dSub("arr", sub(), sub())
+	case c < 18:
+		// a slice typed with a non-empty interface, holding values with a String method
+		d := &D{K: "strgs"}
+		for i, n := 0, 1+r.Intn(3); i < n; i++ {
+			k := []string{"Stringer", "PStringer", "RegStr", "RegDur", "SVStringer", "GoStrStringer", "ErrStringer"}[r.Intn(7)]
+			l := leafOfKind(r, k, c05opts())
+			l.S = QS(c05payload(r))
+			d.Sub = append(d.Sub, l)
+		}
+		return d
 	case c < 28:
 		d := &D{K: "map"}
 		used := map[string]bool{}
@@ -479,6 +489,13 @@ func c05product() []*Call {
 		func(l *D) *D { return dSub("RValue", l) },
 		func(l *D) *D { return dSub("SEmbed", dN("int", 1), l, dSub("Safe", dS("string", "pub"))) },
 		func(l *D) *D { return dSub("SVStruct", l, dS("string", "z")) },
+		func(l *D) *D {
+			switch l.K {
+			case "Stringer", "PStringer", "RegStr", "RegDur", "SVStringer", "GoStrStringer", "ErrStringer":
+				return dSub("strgs", dS("Stringer", "z"), l)
+			}
+			return l
+		},
 	}
 	wrappers := []func(*D) *D{
 		func(l *D) *D { return l },
